@@ -78,6 +78,22 @@ fn literal_cases() -> &'static Vec<String> {
     })
 }
 
+/// extreme-magnitude placeholders: the modulus must still be accurate where re^2 + im^2 over/underflows
+fn extreme_values() -> Vec<C> {
+    let mut v = Vec::new();
+    for (a, b) in [(3.0, 4.0), (1.0, 1.0), (5.0, 12.0), (1.0, 0.0), (0.0, 1.0), (8.0, 15.0)] {
+        for e in [-320i32, -300, -200, -170, -162, -155, -150, -100, 0, 100, 150, 153, 154, 155, 160, 200, 300, 307] {
+            let s = 10f64.powi(e);
+            v.push((a * s, b * s));
+            v.push((-a * s, b * s));
+        }
+    }
+    v.push((f64::MAX, f64::MAX / 2.0));
+    v.push((5e-324, 5e-324));
+    v.push((f64::MIN_POSITIVE, f64::MIN_POSITIVE));
+    v
+}
+
 fn near_cut(canon: &str, z: C, second: Option<C>) -> bool {
     let m = cpxr::modulus(z);
     let neg_real_axis = |z: C| z.0 <= 0.0 && z.1.abs() < 1e-3 * cpxr::modulus(z).max(1e-300);
@@ -100,12 +116,13 @@ impl Prop for C08Prop {
         "C08"
     }
     fn rule(&self) -> String {
-        "eval_complex. (literals, exhaustive) every literal form L, Li, .Li, L.i, -Li, L+Li, bare i and products with i over a literal pool: L = (d(L),0), Li = (0,d(L)), i*i = -1. (exact, random) trees of depth <=5 over + - * unary minus and juxtaposition on generic operands (a±bi), both parts non-zero with magnitudes 0.1..8, and @: compared bit for bit with own pair arithmetic. (root, random) one operator or function (every spelling, incl. ar- aliases, /, ^, °, rad, superscripts) applied at the root to exact-operator subtrees: / and abs within 1e-12, forward functions within 1e-9 of component formulas built from real libm functions, ln/lb/log/sqrt/root/pow/^ from ln|z|+i*atan2 definitions, inverse trigonometric/hyperbolic functions by their defining identity (reference forward function of the answer returns z within 1e-9*|f'(w)|*|w|) and principal range; arguments within 1e-3 of a branch cut or of zero modulus are skipped and counted. (real, exhaustive) every operator/function on real literals inside its real domain: re within 1e-9 relative of eval_f64, |im| <= 1e-9*modulus. non-trivial = an operand with non-zero imaginary part reaches *, /, ^ or a function; distinct by (input, placeholder).".into()
+        "eval_complex. (literals, exhaustive) every literal form L, Li, .Li, L.i, -Li, L+Li, bare i and products with i over a literal pool: L = (d(L),0), Li = (0,d(L)), i*i = -1. (exact, random) trees of depth <=5 over + - * unary minus and juxtaposition on generic operands (a±bi), both parts non-zero with magnitudes 0.1..8, and @: compared bit for bit with own pair arithmetic. (root, random) one operator or function (every spelling, incl. ar- aliases, /, ^, °, rad, superscripts) applied at the root to exact-operator subtrees: / and abs within 1e-12, forward functions within 1e-9 of component formulas built from real libm functions, ln/lb/log/sqrt/root/pow/^ from ln|z|+i*atan2 definitions, inverse trigonometric/hyperbolic functions by their defining identity (reference forward function of the answer returns z within 1e-9*|f'(w)|*|w|) and principal range; arguments within 1e-3 of a branch cut or of zero modulus are skipped and counted. (extreme-abs, exhaustive) abs of placeholders with magnitudes 1e-320..1e307 (where re^2+im^2 over/underflows) within 1e-12 of hypot. (real, exhaustive) every operator/function on real literals inside its real domain: re within 1e-9 relative of eval_f64, |im| <= 1e-9*modulus. non-trivial = an operand with non-zero imaginary part reaches *, /, ^ or a function; distinct by (input, placeholder).".into()
     }
     fn subs(&self, tier: Tier) -> Vec<Sub> {
         vec![
             Sub { name: "literals", kind: SubKind::Enum { count: literal_cases().len() as u64 } },
             Sub { name: "real", kind: SubKind::Enum { count: c15::C15.subs(tier).iter().find(|s| s.name == "complex-f64").map(|s| if let SubKind::Enum { count } = s.kind { count } else { 0 }).unwrap_or(0) } },
+            Sub { name: "extreme-abs", kind: SubKind::Enum { count: extreme_values().len() as u64 * 3 } },
             Sub { name: "exact", kind: SubKind::Random { cases: tier.pick(300_000, 10_000_000), len: 160 } },
             Sub { name: "root", kind: SubKind::Random { cases: tier.pick(400_000, 20_000_000), len: 120 } },
         ]
@@ -113,6 +130,12 @@ impl Prop for C08Prop {
     fn gen_enum(&self, sub: &str, idx: u64, tier: Tier) -> Option<Case> {
         match sub {
             "literals" => Some(Case::new(Ev::Cpx, literal_cases().get(idx as usize)?.clone(), Val::C(0.0, 0.0))),
+            "extreme-abs" => {
+                let v = extreme_values();
+                let z = v[(idx / 3) as usize % v.len()];
+                let form = ["abs(@)", "abs(-@)", "abs((@))+0"][(idx % 3) as usize];
+                Some(Case::new(Ev::Cpx, form.to_string(), Val::C(z.0, z.1)))
+            }
             _ => c15::C15.gen_enum("complex-f64", idx, tier),
         }
     }
@@ -152,6 +175,32 @@ impl Prop for C08Prop {
     fn check(&self, sub: &str, case: &Case, sc: &mut ShardCtx) -> Result<(), Failure> {
         if sub == "real" {
             return c15::C15.check("complex-f64", case, sc);
+        }
+        if sub == "extreme-abs" {
+            let z = match case.ph {
+                Val::C(a, b) => (a, b),
+                _ => return Ok(()),
+            };
+            let o = match eval_normal(sc, Ev::Cpx, &case.input, &case.ph) {
+                Some(o) => o,
+                None => return Ok(()),
+            };
+            let want = cpxr::modulus(z);
+            if !want.is_finite() {
+                sc.exclude("modulus not representable");
+                return Ok(());
+            }
+            let ok = match &o {
+                // subnormal moduli cannot be relatively accurate to 1e-12: allow one unit of the smallest subnormal there
+                Outcome::Ok(Val::C(re, im)) => *im == 0.0 && ((re - want).abs() <= 1e-12 * want || (want < 1e-300 && (re - want).abs() <= 1e-322)),
+                _ => false,
+            };
+            if !ok {
+                return Err(Failure::new("complex/value/abs-extreme", format!("{:?}+0i within 1e-12 relative (modulus)", want), o.show()));
+            }
+            sc.class("fn:abs (extreme magnitudes)");
+            sc.nontrivial(case.hash(), || sample(case, &o.show()));
+            return Ok(());
         }
         let e = match accept(Ev::Cpx, &case.input) {
             Some(e) => e,
